@@ -14,7 +14,9 @@
 //! this harness checks every logged DELETE against catalog history, pin state
 //! and schedule, every retention removal against the cut-off, and persisted
 //! deletions across restarts.
+mod faultmeta;
 use cardinalsin::compactor::pins::PinGuard;
+use faultmeta::{FaultMeta, Kind};
 use cardinalsin::compactor::{ChunkPinRegistry, Compactor, CompactorConfig};
 use cardinalsin::ingester::ChunkMetadata;
 use cardinalsin::metadata::{
@@ -60,6 +62,12 @@ enum Op {
     P { q: u32, ps: Vec<u32> },
     U { q: u32 },
     O,
+    /// entries appended to pending-deletions.json by the harness itself (a predecessor whose
+    /// clock ran ahead, an operator): paths that the catalog never referenced
+    DE { es: Vec<(u32, Ts)> },
+    /// arm one metadata fault (before effect) for the compactor: 0 = complete_compaction,
+    /// 1 = register_chunk, 2 = delete_chunk
+    F(u8),
 }
 
 #[derive(Clone, Debug, PartialEq)]
@@ -107,6 +115,8 @@ fn op_text(o: &Op) -> String {
         Op::P { q, ps } => format!("P {} {}", q, list_text(ps)),
         Op::U { q } => format!("U {}", q),
         Op::O => "O".into(),
+        Op::DE { es } => format!("DE {}", es.iter().map(|(p, t)| format!("{}@{}", p, ts_text(t))).collect::<Vec<_>>().join(",")),
+        Op::F(k) => format!("F {}", k),
     }
 }
 
@@ -146,6 +156,11 @@ fn case_parse(line: &str) -> Case {
             "P" => Op::P { q: f[1].parse().unwrap(), ps: list_parse(f.get(2).copied().unwrap_or("")) },
             "U" => Op::U { q: f[1].parse().unwrap() },
             "O" => Op::O,
+            "DE" => Op::DE {
+                es: f.get(1).copied().unwrap_or("").split(',').filter(|x| !x.is_empty())
+                    .filter_map(|e| e.split_once('@').map(|(p, t)| (p.parse().unwrap(), ts_parse(t)))).collect(),
+            },
+            "F" => Op::F(f[1].parse().unwrap()),
             _ => continue,
         };
         c.ops.push(op);
@@ -224,6 +239,17 @@ struct Outcome {
     stats: BTreeMap<&'static str, u64>,
 }
 
+#[derive(Clone, Debug, PartialEq)]
+enum End {
+    /// still running / ended with its persist
+    Normal,
+    /// `?` left compact_l0 / compact_level: nothing after it ran (complete_compaction failed: Some(tgt, srcs))
+    AbortedInCompaction(Option<(u32, Vec<u32>)>),
+    /// enforce_retention failed at its first delete_chunk: GC part done, nothing persisted
+    RetentionFailed,
+    Other,
+}
+
 struct World {
     hub: Arc<Hub>,
     raw: Arc<InMemory>,
@@ -247,7 +273,8 @@ struct World {
     grace_s: i64,
     retention_s: i64,
     live: BTreeMap<u32, (i64, i64)>,  // harness's view of the catalog: path -> (min,max) ns
-    removed_at: BTreeMap<u32, i64>,   // time (model ns) of the last removal from the catalog
+    /// clock readings (model ns) at which the path, out of the catalog, was handed to schedule_deletion
+    removed_at: BTreeMap<u32, Vec<i64>>,
     scheduled: BTreeSet<u32>,
     guards: BTreeMap<u32, (PinGuard, Vec<u32>, u64, bool)>, // q -> (guard, paths, cycle_no at pin, taken inside an open cycle)
     del_since_mark: Vec<u32>,
@@ -258,6 +285,17 @@ struct World {
     stats: BTreeMap<&'static str, u64>,
     log_cursor: usize,
     real_chunks: bool,
+    /// the compactor's metadata client: the real one behind a one-shot fault injector
+    fmeta: Arc<FaultMeta>,
+    /// clock reading (model ns) the running pass took at its filter
+    pass_time: i64,
+    /// entries the harness wrote into the pending file itself: path -> timestamps (ns)
+    foreign: BTreeMap<u32, Vec<i64>>,
+    /// model of BoundedClock: high-water mark of this compactor, reading of its last retention pass
+    bhw: i64,
+    ret_clock: i64,
+    /// how the cycle that just ended without a persist ended
+    ended: End,
     /// (model op, implementation token) pairs for what the compactor did on its own inside a
     /// cycle (a real compaction: registration of the merged chunk, swap + scheduling)
     synthetic: Vec<(String, String)>,
@@ -294,7 +332,7 @@ impl World {
             Compactor::new(
                 self.cfg.clone(),
                 self.store0.clone(),
-                self.meta.clone(),
+                self.fmeta.clone(),
                 Default::default(),
                 Arc::new(ShardMonitor::new(HotShardConfig::default())),
             )
@@ -332,14 +370,23 @@ impl World {
             let srcs: Vec<u32> = gone.iter().map(|(p, _)| *p).collect();
             for p in &srcs {
                 self.live.remove(p);
-                self.removed_at.insert(*p, self.target);
+                self.removed_at.entry(*p).or_default().push(self.target);
                 self.scheduled.insert(*p);
             }
             self.synthetic.push((format!("C {} {}", t, list_text(&srcs)), "0".into()));
             self.bump("compaction.real");
             return;
         }
-        let cutoff_model = self.target - self.retention_s.saturating_mul(S) - SKEW_S * S;
+        if !appeared.is_empty() && gone.is_empty() {
+            // a merged chunk was registered but the swap did not happen (complete_compaction failed)
+            for (t, (mn, mx)) in appeared {
+                self.live.insert(t, (mn, mx));
+                self.synthetic.push((format!("R {} {} {}", t, mn, mx), "-".into()));
+            }
+            return;
+        }
+        // the cut-off comes from the BoundedClock, which does not follow the wall clock backwards
+        let cutoff_model = self.ret_clock - self.retention_s.saturating_mul(S) - SKEW_S * S;
         for (p, (_mn, mx)) in gone {
             // the real cut-off lies in [cutoff_model, cutoff_model + drift)
             if !(mx < cutoff_model + 4 * S / 10) {
@@ -352,7 +399,7 @@ impl World {
                 );
             }
             self.live.remove(&p);
-            self.removed_at.insert(p, self.target);
+            self.removed_at.entry(p).or_default().push(self.target);
             self.scheduled.insert(p);
             self.ret_since_mark.push(p);
             self.bump("retention.removed");
@@ -480,8 +527,41 @@ impl World {
         }));
         self.cycle_in_run = false;
         self.cycle_open = true;
+        self.pass_time = self.target;
+        self.ended = End::Normal;
         self.settle().await;
+        self.after_settle().await;
+    }
+
+    /// after the cycle task parked again or ended: retention bookkeeping, catalog diff, and - when
+    /// the task ended without reaching its persist - how it ended
+    async fn after_settle(&mut self) {
+        let parked = self.parked();
+        let fired = self.fmeta.take_fired();
+        let at_put = matches!(&parked, Some((v, p)) if v == "PUT" && p == PENDING_FILE);
+        let dc = fired.iter().any(|f| f.kind == Kind::DeleteChunk);
+        if at_put || (parked.is_none() && dc) {
+            // the retention pass read its cut-off
+            self.ret_clock = self.target.max(self.bhw + 1);
+            self.bhw = self.ret_clock;
+        }
         self.absorb_catalog_changes().await;
+        if parked.is_none() && self.cycle_open && !self.cycle_in_run {
+            self.ended = if let Some(f) = fired.iter().find(|f| f.kind == Kind::CompleteCompaction) {
+                let t = if is_compacted_path(&f.tgt) { intern(&f.tgt) } else { pid(&f.tgt).unwrap_or(0) };
+                End::AbortedInCompaction(Some((t, f.srcs.iter().filter_map(|s| pid(s)).collect())))
+            } else if dc {
+                End::RetentionFailed
+            } else {
+                self.violate("", "a compaction cycle ended with an error although no fault was injected".into());
+                End::Other
+            };
+            if let Some(t) = self.cycle_task.take() {
+                let _ = tokio::time::timeout(Duration::from_secs(20), t).await;
+            }
+            self.close_cycle();
+            self.bump("cycle.ended_by_metadata_fault");
+        }
     }
 
     /// oracle for one DELETE request that is about to take effect
@@ -514,14 +594,30 @@ impl World {
         if !self.scheduled.contains(&p) {
             self.violate("", format!("chunk {} deleted although it was never scheduled for deletion", p));
         }
-        if let Some(t) = self.removed_at.get(&p) {
-            if self.target - *t < self.grace_s.saturating_mul(S) {
+        // the grace period counts from the entry's own timestamp to the clock reading the pass took
+        // at its filter (the clock may have been stepped since, in either direction)
+        let grace_ns = self.grace_s.saturating_mul(S);
+        if let Some(tss) = self.removed_at.get(&p) {
+            // (scheduled again after a clock step: any of its scheduling instants may justify the delete)
+            if !tss.iter().any(|t| self.pass_time - *t >= grace_ns) {
                 self.violate(
                     "",
                     format!(
-                        "chunk {} deleted {} s after it left the catalog, grace period is {} s",
+                        "chunk {} deleted by a pass that started {} s after it left the catalog and was scheduled, grace period is {} s",
                         p,
-                        (self.target - *t) / S,
+                        tss.iter().map(|t| (self.pass_time - *t).div_euclid(S)).max().unwrap_or(0),
+                        self.grace_s
+                    ),
+                );
+            }
+        } else if let Some(tss) = self.foreign.get(&p) {
+            if !tss.iter().any(|t| self.pass_time - *t >= grace_ns) {
+                self.violate(
+                    "",
+                    format!(
+                        "chunk {} deleted by a pass whose clock read {} s relative to the entry's own timestamp, grace period is {} s",
+                        p,
+                        tss.iter().map(|t| (self.pass_time - *t).div_euclid(S)).max().unwrap_or(0),
                         self.grace_s
                     ),
                 );
@@ -541,7 +637,7 @@ impl World {
             let ctl = self.ctl.as_mut().unwrap();
             let _ = tokio::time::timeout(Duration::from_secs(20), ctl.step(0, Action::Proceed)).await;
             self.settle().await;
-            self.absorb_catalog_changes().await;
+            self.after_settle().await;
         } else {
             // the persist PUT: last store request of the cycle
             let before = self.hub.log.lock().unwrap().len();
@@ -622,7 +718,12 @@ impl World {
         self.disk_before_restart = Some(disk);
         self.deleted_since_restart.clear();
 
+        self.fmeta.disarm();
+        let _ = self.fmeta.take_fired();
         self.compactor = self.new_compactor();
+        self.bhw = 0;
+        self.pass_time = self.target;
+        self.ended = End::Normal;
         self.cycle_no += 1;
         let ctl = self.hub.attach(&[0]);
         self.ctl = Some(ctl);
@@ -635,7 +736,7 @@ impl World {
         self.cycle_in_run = true;
         self.cycle_open = true;
         self.settle().await; // lets the load GET through, parks at the first DELETE / the persist PUT
-        self.absorb_catalog_changes().await;
+        self.after_settle().await;
     }
 
     /// persisted deletions must still be pending (same scheduled_at) or carried out
@@ -688,8 +789,9 @@ async fn run_case(case: &Case) -> Outcome {
     };
     let registry = ChunkPinRegistry::new();
     let t0 = (real_now() / S) * S + S / 2;
+    let fmeta = Arc::new(FaultMeta::new(meta.clone()));
     let compactor = Arc::new(
-        Compactor::new(cfg.clone(), store0.clone(), meta.clone(), Default::default(), Arc::new(ShardMonitor::new(HotShardConfig::default())))
+        Compactor::new(cfg.clone(), store0.clone(), fmeta.clone(), Default::default(), Arc::new(ShardMonitor::new(HotShardConfig::default())))
             .with_pin_registry(registry.clone()),
     );
     let mut w = World {
@@ -723,6 +825,12 @@ async fn run_case(case: &Case) -> Outcome {
         stats: BTreeMap::new(),
         log_cursor: 0,
         real_chunks: case.l0 > 0,
+        fmeta,
+        pass_time: t0,
+        foreign: BTreeMap::new(),
+        bhw: 0,
+        ret_clock: t0,
+        ended: End::Normal,
         synthetic: vec![],
     };
     w.anchor_clock();
@@ -764,8 +872,9 @@ async fn run_case(case: &Case) -> Outcome {
                 if r.is_ok() {
                     for (s, n) in srcs.iter().zip(names.iter()) {
                         w.compactor.schedule_deletion(n);
-                        if w.live.remove(s).is_some() {
-                            w.removed_at.insert(*s, w.target);
+                        let was_live = w.live.remove(s).is_some();
+                        if was_live || w.removed_at.contains_key(s) {
+                            w.removed_at.entry(*s).or_default().push(w.target);
                         }
                         w.scheduled.insert(*s);
                     }
@@ -780,14 +889,29 @@ async fn run_case(case: &Case) -> Outcome {
                     mline.push(m);
                     toks.push(t);
                 }
-                mline.push("GF".into());
+                match std::mem::replace(&mut w.ended, End::Normal) {
+                    End::Normal => mline.push("GF".into()),
+                    End::AbortedInCompaction(cf) => {
+                        if let Some((t, srcs)) = cf {
+                            mline.push(format!("CF {} {}", t, list_text(&srcs)));
+                            toks.push("1".into());
+                        }
+                        mline.push("GA".into());
+                    }
+                    End::RetentionFailed => mline.push("GFX".into()),
+                    End::Other => mline.push("GA".into()),
+                }
                 "-".to_string()
             }
             Op::GD => match w.parked() {
                 Some((verb, path)) if w.cycle_open && verb == "DELETE" => {
                     let p = pid(&path).unwrap_or(0);
                     w.release_one().await;
-                    mline.push(format!("GD {}", p));
+                    if std::mem::replace(&mut w.ended, End::Normal) == End::RetentionFailed {
+                        mline.push(format!("GDX {}", p));
+                    } else {
+                        mline.push(format!("GD {}", p));
+                    }
                     w.bump("cycle.delete_stepped");
                     "d".to_string()
                 }
@@ -797,11 +921,16 @@ async fn run_case(case: &Case) -> Outcome {
                 }
             },
             Op::GP => {
-                mline.push("GP".into());
                 if w.cycle_open {
                     w.finish_cycle().await;
+                    if std::mem::replace(&mut w.ended, End::Normal) == End::RetentionFailed {
+                        mline.push("GPX".into());
+                    } else {
+                        mline.push("GP".into());
+                    }
                     w.observe().await
                 } else {
+                    mline.push("GP".into());
                     "-".to_string()
                 }
             }
@@ -811,8 +940,37 @@ async fn run_case(case: &Case) -> Outcome {
                     mline.push(m);
                     toks.push(t);
                 }
-                w.finish_cycle().await;
-                mline.push("G".into());
+                match std::mem::replace(&mut w.ended, End::Normal) {
+                    End::Normal => {
+                        w.finish_cycle().await;
+                        if std::mem::replace(&mut w.ended, End::Normal) == End::RetentionFailed {
+                            mline.push("GF".into());
+                            toks.push("-".into());
+                            mline.push("GPX".into());
+                        } else {
+                            mline.push("G".into());
+                        }
+                    }
+                    End::AbortedInCompaction(cf) => {
+                        if let Some((t, srcs)) = cf {
+                            mline.push(format!("CF {} {}", t, list_text(&srcs)));
+                            toks.push("1".into());
+                        }
+                        mline.push("GA".into());
+                        toks.push("-".into());
+                        mline.push("O".into());
+                    }
+                    End::RetentionFailed => {
+                        mline.push("GFX".into());
+                        toks.push("-".into());
+                        mline.push("O".into());
+                    }
+                    End::Other => {
+                        mline.push("GA".into());
+                        toks.push("-".into());
+                        mline.push("O".into());
+                    }
+                }
                 w.observe().await
             }
             Op::RS => {
@@ -882,8 +1040,38 @@ async fn run_case(case: &Case) -> Outcome {
                 mline.push("O".into());
                 w.observe().await
             }
+            Op::DE { es } => {
+                // append to the file behind the compactor's back
+                let mut arr: Vec<serde_json::Value> = match w.raw.get(&PENDING_FILE.to_string().into()).await {
+                    Ok(r) => r.bytes().await.ok().and_then(|b| serde_json::from_slice(&b).ok()).unwrap_or_default(),
+                    Err(_) => Vec::new(),
+                };
+                let mut items = Vec::new();
+                for (p, t) in es {
+                    let ts = w.abs(t);
+                    let when = chrono::DateTime::from_timestamp_nanos(ts).to_rfc3339_opts(chrono::SecondsFormat::Nanos, true);
+                    arr.push(json!({"path": pname(*p), "scheduled_at": when}));
+                    w.foreign.entry(*p).or_default().push(ts);
+                    w.scheduled.insert(*p);
+                    items.push(format!("{}@{}", p, ts));
+                }
+                let _ = w.raw.put(&PENDING_FILE.to_string().into(), serde_json::to_vec(&arr).unwrap().into()).await;
+                w.bump("disk.edited_from_outside");
+                mline.push(format!("DE {}", items.join(",")));
+                "-".to_string()
+            }
+            Op::F(k) => {
+                // no step of the model: the fault shows in how the next cycle ends
+                if !w.cycle_in_run || !w.cycle_open {
+                    w.fmeta.arm(match k { 0 => Kind::CompleteCompaction, 1 => Kind::RegisterChunk, _ => Kind::DeleteChunk });
+                    w.bump("fault.armed");
+                }
+                String::new()
+            }
         };
-        toks.push(tok);
+        if !tok.is_empty() {
+            toks.push(tok);
+        }
         let _ = mark;
         if !w.synthetic.is_empty() {
             // a compaction can only start at the head of a cycle
@@ -1216,6 +1404,7 @@ fn gen_case(rng: &mut Rng, report: &mut Report) -> Case {
     let mut next_path = 1u32;
     let mut queries: Vec<u32> = Vec::new();
     let mut next_q = 1u32;
+    let mut next_foreign = 60u32;
     let mut open = false;
     let tick = |rng: &mut Rng, grace: u64| -> i64 {
         let grace = if grace > 100_000 { 301 } else { grace };
@@ -1296,7 +1485,12 @@ fn gen_case(rng: &mut Rng, report: &mut Report) -> Case {
             scheduled.extend(srcs.iter().copied());
             ops.push(Op::C { tgt, srcs });
         } else if r < 55 {
-            let d = tick(rng, grace_s);
+            let mut d = tick(rng, grace_s);
+            if l0 == 0 && rng.chance(1, 10) {
+                // the wall clock is stepped back (NTP, operator)
+                d = -rng.range_i64(1, 40);
+                report.bump("gen.clock_stepped_back");
+            }
             elapsed += d;
             ops.push(Op::T(d));
         } else if r < 67 {
@@ -1337,10 +1531,31 @@ fn gen_case(rng: &mut Rng, report: &mut Report) -> Case {
                 ops.push(Op::GF);
                 open = true;
             }
-        } else if r < 94 {
+        } else if r < 93 {
             ops.push(Op::RS);
             open = true;
             report.bump("gen.restart");
+        } else if r < 96 && l0 == 0 {
+            // the pending file is extended from outside: entries dated in the past, now, ahead of the clock
+            let g = if grace_s > 100_000 { 5 } else { grace_s as i64 };
+            let mut es = Vec::new();
+            for _ in 0..rng.range_usize(1, 3) {
+                let off = *rng.pick(&[-3600i64, -(g + 1), -g, -1, 0, 1, 25, g, g + 30, 3600]);
+                if off > 0 {
+                    report.bump("gen.foreign_entry_in_the_future");
+                }
+                es.push((next_foreign, Ts::Rel(elapsed + off)));
+                next_foreign += 1;
+            }
+            ops.push(Op::DE { es });
+            if rng.chance(3, 4) {
+                ops.push(Op::RS);
+                open = true;
+            }
+        } else if r < 98 {
+            let k = if l0 > 0 { rng.below(3) as u8 } else { 2 };
+            report.bump(&format!("gen.metadata_fault.{}", k));
+            ops.push(Op::F(k));
         } else if open {
             ops.push(Op::GD);
         } else {
@@ -1536,6 +1751,118 @@ fn corpus() -> Vec<Case> {
                 Op::O,
             ],
         });
+        // a pending file written by a predecessor whose clock ran ahead: one entry 25 s in the
+        // future, one due an hour ago; picked up by `run` after a restart.  The future entry waits
+        // until the clock has passed its own timestamp by the grace period
+        v.push(Case {
+            backend,
+            grace_s: 5,
+            retention_days: 90,
+            l0: 0,
+            ops: vec![
+                Op::DE { es: vec![(60, rel(25)), (61, rel(-3600))] },
+                Op::RS,
+                Op::GP,
+                Op::T(29),
+                Op::G,
+                Op::T(1),
+                Op::G,
+                Op::O,
+            ],
+        });
+        // the wall clock is stepped back between scheduling and the pass: the entry is then dated
+        // ahead of the clock and waits
+        v.push(Case {
+            backend,
+            grace_s: 5,
+            retention_days: 90,
+            l0: 0,
+            ops: vec![
+                Op::R { p: 1, mn: rel(-10), mx: rel(-5) },
+                Op::R { p: 2, mn: rel(-10), mx: rel(0) },
+                Op::C { tgt: 2, srcs: vec![1] },
+                Op::T(-30),
+                Op::G,
+                Op::T(34),
+                Op::G,
+                Op::T(1),
+                Op::G,
+                Op::O,
+            ],
+        });
+        // retention after the wall clock was stepped back: the cut-off comes from the bounded clock
+        v.push(Case {
+            backend,
+            grace_s: 0,
+            retention_days: 0,
+            l0: 0,
+            ops: vec![
+                Op::G,
+                Op::T(-20),
+                Op::R { p: 1, mn: rel(-100), mx: rel(-31) },
+                Op::R { p: 2, mn: rel(-100), mx: rel(-45) },
+                Op::G,
+                Op::O,
+            ],
+        });
+        // the catalog swap fails once after a successful merge: nothing may be scheduled, the
+        // sources stay referenced and must still be there after the grace period
+        v.push(Case {
+            backend,
+            grace_s: 2,
+            retention_days: 90,
+            l0: 2,
+            ops: vec![
+                Op::R { p: 1, mn: rel(-50), mx: rel(-40) },
+                Op::R { p: 2, mn: rel(-50), mx: rel(-30) },
+                Op::F(0),
+                Op::G,
+                Op::T(2),
+                Op::G,
+                Op::T(300),
+                Op::G,
+                Op::T(2),
+                Op::G,
+                Op::O,
+            ],
+        });
+        // register_chunk of the merged chunk fails: the group is given up, the cycle goes on
+        v.push(Case {
+            backend,
+            grace_s: 0,
+            retention_days: 90,
+            l0: 2,
+            ops: vec![
+                Op::R { p: 1, mn: rel(-50), mx: rel(-40) },
+                Op::R { p: 2, mn: rel(-50), mx: rel(-30) },
+                Op::F(1),
+                Op::G,
+                Op::T(1),
+                Op::G,
+                Op::O,
+            ],
+        });
+        // delete_chunk fails in the retention pass: nothing is scheduled for the chunk that stays
+        v.push(Case {
+            backend,
+            grace_s: 0,
+            retention_days: 0,
+            l0: 0,
+            ops: vec![
+                Op::R { p: 1, mn: rel(-100), mx: rel(-40) },
+                Op::R { p: 2, mn: rel(-100), mx: rel(-50) },
+                Op::R { p: 3, mn: rel(-10), mx: rel(0) },
+                Op::C { tgt: 3, srcs: vec![2] },
+                Op::F(2),
+                Op::GF,
+                Op::GD,
+                Op::T(1),
+                Op::G,
+                Op::T(1),
+                Op::G,
+                Op::O,
+            ],
+        });
         // settings at the edge of what chrono / i64 can hold: nothing may be deleted or expired
         for (g, r) in [(u64::MAX, 90u32), (400_000 * 365 * 86_400, 90), (300, 200_000), (300, u32::MAX), (0, 106_752)] {
             v.push(Case {
@@ -1696,7 +2023,20 @@ fn main() {
     }
 
     let mut timing_skips = 0u64;
-    for (origin, case) in cases {
+    // work is bounded under a breaking change: stop after MAX_FINDINGS unclassified findings, a
+    // shrink may re-run the case at most SHRINK_BUDGET times, the report is rewritten as it grows
+    const MAX_FINDINGS: usize = 10;
+    const SHRINK_BUDGET: usize = 120;
+    let mut findings = 0usize;
+    let total = cases.len();
+    for (idx, (origin, case)) in cases.into_iter().enumerate() {
+        if findings >= MAX_FINDINGS {
+            report.notes.push(format!("stopped after {} unclassified findings at case {} of {}", findings, idx, total));
+            break;
+        }
+        if idx % 200 == 199 {
+            report.write(&args.out);
+        }
         let line = case_text(&case);
         report.case(if nontrivial(&case) { Some(&line) } else { None });
         report.bump(&format!("origin.{}", origin));
@@ -1717,7 +2057,12 @@ fn main() {
         report.sample(json!({"history": line, "impl": out.impl_out, "model": mbody}));
         let differs = !model.is_null() && mbody != out.impl_out;
         if differs {
+            let mut budget = SHRINK_BUDGET;
             let shrunk_ops = ddmin(&case.ops, &mut |cand: &[Op]| {
+                if budget == 0 {
+                    return false;
+                }
+                budget -= 1;
                 let c = Case { ops: cand.to_vec(), ..case.clone() };
                 let (o, m, _) = run_checked(&rt, &mut model, &c);
                 !o.timing_invalid && m != o.impl_out
@@ -1730,6 +2075,8 @@ fn main() {
                 "shrunk": case_text(&sc), "shrunk_impl": so.impl_out, "shrunk_model": sm,
                 "oracle_failed": !out.violations.is_empty() || !so.violations.is_empty(),
             }));
+            findings += 1;
+            report.write(&args.out);
         }
         // oracle
         let mut seen: BTreeSet<String> = BTreeSet::new();
@@ -1747,7 +2094,12 @@ fn main() {
                 json!({"case": line})
             } else {
                 let cl = class.to_string();
+                let mut budget = SHRINK_BUDGET;
                 let shrunk_ops = ddmin(&case.ops, &mut |cand: &[Op]| {
+                    if budget == 0 {
+                        return false;
+                    }
+                    budget -= 1;
                     let c = Case { ops: cand.to_vec(), ..case.clone() };
                     let o = rt.block_on(run_case(&c));
                     o.violations.iter().any(|(k, _)| *k == cl || (cl.is_empty() && k != KNOWN_CLASS))
@@ -1755,6 +2107,10 @@ fn main() {
                 json!({"case": case_text(&Case { ops: shrunk_ops, ..case.clone() }), "original": line})
             };
             report.oracle_violation(class, what, case_json);
+            if class != KNOWN_CLASS {
+                findings += 1;
+                report.write(&args.out);
+            }
         }
     }
     report.notes.push(format!("model calls: {}", model.calls));
